@@ -5,6 +5,7 @@ import (
 	"fmt"
 	"math/rand/v2"
 	"net/netip"
+	"strconv"
 	"strings"
 
 	"verifharness/codec"
@@ -56,8 +57,9 @@ func (c19) Gen(rng *rand.Rand, tier string, i int) *sim.Scenario {
 			host = "127.0.0.2"
 		}
 	}
-	// target literal form
-	withPort := 0
+	// target literal form; a port inside the literal is drawn from the same boundary set as the parameter
+	withPort := false
+	litPort := pick(rng, "8443", "1", "65535", "8443", "1", "65535", "0", "00", "65536", "70000", "-1", "", "http", "4294967297")
 	switch {
 	case v6:
 		switch rng.IntN(3) {
@@ -66,18 +68,18 @@ func (c19) Gen(rng *rand.Rand, tier string, i int) *sim.Scenario {
 		case 1:
 			c.Target = "[" + host + "]"
 		default:
-			withPort = pick(rng, 8443, 1, 65535)
-			c.Target = fmt.Sprintf("[%s]:%d", host, withPort)
+			withPort = true
+			c.Target = fmt.Sprintf("[%s]:%s", host, litPort)
 		}
 	default:
 		if chance(rng, 0.25) && host != "127.0.0.2" {
-			withPort = pick(rng, 8443, 1, 65535)
-			c.Target = fmt.Sprintf("%s:%d", host, withPort)
+			withPort = true
+			c.Target = fmt.Sprintf("%s:%s", host, litPort)
 		} else {
 			c.Target = host
 		}
 	}
-	if withPort == 0 {
+	if !withPort {
 		c.Port = pick(rng, 0, 33434, 443, -1, 1, 65535, 65536, 70000, 0, 8080)
 	}
 	// TTL bounds: usually one boundary value, sometimes both
@@ -175,6 +177,26 @@ func (c19) Check(out *sim.Outcome, ri *RunInfo) []Violation {
 	case c.Protocol != "icmp" && knownProto && (c.Port < 0 || c.Port > 65535):
 		mustReject = "port"
 	}
+	// a port inside the target literal: a number outside 0..65535 or a non-number cannot be put on the
+	// wire; 0 and the empty port may be rejected or mean the default (don't-care), never wire port 0
+	lit, hasLit := literalPort(c.Target)
+	litDontCare := false
+	if hasLit && mustReject == "" {
+		ri.NonTrivial = true
+		n, err := strconv.Atoi(lit)
+		switch {
+		case lit == "":
+			litDontCare = true
+		case err != nil || n < 0 || n > 65535:
+			if c.Protocol != "icmp" {
+				mustReject = "literal-port"
+			} else {
+				litDontCare = true
+			}
+		case n == 0:
+			litDontCare = true
+		}
+	}
 	if mustReject != "" {
 		ri.probe("must-reject." + mustReject)
 		if !failed {
@@ -194,7 +216,7 @@ func (c19) Check(out *sim.Outcome, ri *RunInfo) []Violation {
 		ri.probe("rejected-or-failed")
 		// a representable request with a known protocol/method must not fail in a fault-free world,
 		// except for the don't-care spellings
-		if knownProto && knownMethod && !(c.Protocol == "tcp" && c.WantV6) {
+		if knownProto && knownMethod && !(c.Protocol == "tcp" && c.WantV6) && !litDontCare {
 			detail := fmt.Sprint(cs.Err)
 			if c.Entry == "http_handler" {
 				detail = fmt.Sprintf("HTTP %d %s", cs.HTTPStatus, strings.TrimSpace(string(cs.HTTPBody)))
@@ -260,6 +282,20 @@ func (c19) Check(out *sim.Outcome, ri *RunInfo) []Violation {
 	return vs
 }
 
+// literalPort returns the port text of a target literal of the forms a.b.c.d:<port> and [v6]:<port>.
+func literalPort(t string) (string, bool) {
+	if strings.HasPrefix(t, "[") {
+		if i := strings.Index(t, "]:"); i >= 0 {
+			return t[i+2:], true
+		}
+		return "", false
+	}
+	if strings.Count(t, ":") == 1 {
+		return t[strings.IndexByte(t, ':')+1:], true
+	}
+	return "", false
+}
+
 // expectedTarget parses the target literal the way the property describes it: an address, with an
 // optional port; the separate port parameter applies when the literal has none, 33434 when 0.
 func expectedTarget(c *sim.Call, resolvedPort int) (netip.Addr, int) {
@@ -269,7 +305,15 @@ func expectedTarget(c *sim.Call, resolvedPort int) (netip.Addr, int) {
 		port = 33434
 	}
 	if ap, err := netip.ParseAddrPort(t); err == nil {
+		if ap.Port() == 0 {
+			return ap.Addr().Unmap(), 33434 // ":0" executed means the default
+		}
 		return ap.Addr().Unmap(), int(ap.Port())
+	}
+	if i := strings.Index(t, "]:"); i >= 0 && strings.HasPrefix(t, "[") {
+		t = t[:i+1] // "[v6]:" with an empty port
+	} else if strings.Count(t, ":") == 1 {
+		t = t[:strings.IndexByte(t, ':')]
 	}
 	t = strings.Trim(t, "[]")
 	a, _ := netip.ParseAddr(t)
@@ -307,22 +351,7 @@ func (c17) Gen(rng *rand.Rand, tier string, i int) *sim.Scenario {
 	o := requestOpts{protocols: []string{"udp", "udp6", "icmp", "icmp6", "tcp-syn"}, queriesMin: 1, queriesMax: 3, e2eMax: 1, reverseDNS: 0.5, skipPrivate: 0.9, privateHops: true, silentProb: 0.15, privateTarget: 0.3}
 	sc := genRequestScenario("C17", rng, o)
 	if chance(rng, 0.35) {
-		sc.Calls[0].Entry = "http_handler"
-		sc.Calls[0].MinTTL = 1
-		// flows were generated for the original MinTTL; regenerate
-		sc.Flows = nil
-		p := "udp"
-		switch {
-		case sc.Calls[0].Protocol == "icmp" && sc.Calls[0].WantV6:
-			p = "icmp6"
-		case sc.Calls[0].Protocol == "icmp":
-			p = "icmp"
-		case sc.Calls[0].Protocol == "tcp":
-			p = "tcp-syn"
-		case sc.Calls[0].WantV6:
-			p = "udp6"
-		}
-		addRequestFlows(rng, sc, &o, p)
+		toHandler(rng, sc, &o)
 	}
 	if sc.Calls[0].ReverseDNS {
 		seen := map[string]bool{}
